@@ -2,7 +2,8 @@
    engine's verdict on an empty account list was Ok, which happens only inside a flash loan or when the account is left
    without any active balance. *)
 Require Import Base Constants Fixed Curve Bank BankOps Risk TransferFee Handlers.
-Require Import FixedLemmas BankLemmas ValueLemmas CurveLemmas AccrualLemmas TransferFeeLemmas HandlerLemmas SolvencyLemmas.
+Require Import FixedLemmas BankLemmas ValueLemmas CurveLemmas AccrualLemmas TransferFeeLemmas HandlerLemmas SolvencyLemmas StructLemmas HandlerEffects.
+From Coq Require Import Sorting.Permutation.
 Local Open Scope Z_scope.
 
 Lemma norem_check_inv ac :
@@ -73,4 +74,51 @@ Proof.
   apply bind_ok in H as ([[ph x] y] & Hpre & _).
   unfold positions_norem in Hps. destruct (existsb bl_active (ha_la (sort_acct ee))); [discriminate|].
   apply Ok_inj in Hps. subst ps. unfold pre_liquidation in Hpre. cbn in Hpre. discriminate.
+Qed.
+
+
+(* stronger for the borrow: it always leaves an active balance (the one borrowed from), so without risk accounts it can
+   succeed only inside a flash loan *)
+Lemma existsb_perm {A} (f : A -> bool) l l' : Permutation l l' -> existsb f l = existsb f l'.
+Proof.
+  induction 1 as [|x l l' _ IH|x y l|l l' l'' _ IH1 _ IH2]; cbn; try congruence.
+  - destruct (f x), (f y); reflexivity.
+Qed.
+
+Lemma existsb_set_nth_active la i bl bl' :
+  nth_error la i = Some bl -> bl_active bl' = true -> existsb bl_active (set_nth i bl' la) = true.
+Proof.
+  revert i. induction la as [|h t IH]; intros [|i] Hn Ha; cbn in *; try discriminate.
+  - rewrite Ha. reflexivity.
+  - rewrite (IH i Hn Ha). apply Bool.orb_true_r.
+Qed.
+
+Theorem borrow_norem_only_in_flashloan w a b n w' :
+  h_borrow_norem w a b n = Ok w' ->
+  exists ac, nth_acct w a = Ok ac /\ aflag ac ACCOUNT_IN_FLASHLOAN = true.
+Proof.
+  unfold h_borrow_norem. intros H.
+  apply bind_ok in H as (hb & Hhb & H). apply bind_ok in H as (ac & Hac & H).
+  apply bind_ok in H as (u1 & _ & H). apply bind_ok in H as (u2 & _ & H). apply bind_ok in H as (u3 & _ & H).
+  apply bind_ok in H as (bk1 & _ & H). apply bind_ok in H as (u4 & _ & H). apply bind_ok in H as (u5 & _ & H).
+  apply bind_ok in H as ([i la1] & Hfoc & H). apply bind_ok in H as (bl & Hbl & H). apply bind_ok in H as (pre & _ & H).
+  apply bind_ok in H as ([delta ofee] & _ & H). apply bind_ok in H as ([bk2 bl2] & Hdec & H).
+  set (w1 := put_hacct (put_hbank w b (set_hb_b bk2 hb)) a (mkHA (set_nth i bl2 la1) (ha_flags ac))) in H.
+  apply bind_ok in H as (w2 & Hx & H). apply bind_ok in H as (hb2 & _ & H). apply bind_ok in H as (bk4 & _ & H).
+  apply bind_ok in H as (ac2 & Hac2 & H). apply bind_ok in H as (u6 & Hchk & _). destruct u6.
+  assert (Hb1 : nth_bank w1 b = Ok (set_hb_b bk2 hb)) by (unfold w1; eapply put_hbank_get; eauto).
+  destruct (xfer_out_eq _ _ _ _ _ _ Hx Hb1) as (_ & _ & Ea & _).
+  assert (Eac2 : ac2 = mkHA (set_nth i bl2 la1) (ha_flags ac)).
+  { unfold nth_acct in Hac2. rewrite Ea in Hac2. unfold w1, put_hacct in Hac2. cbn [hw_accts] in Hac2.
+    apply nth_res_ok in Hac. unfold nth_res in Hac2. rewrite (nth_set_nth_same _ _ _ _ Hac) in Hac2.
+    apply Ok_inj in Hac2. symmetry. exact Hac2. }
+  exists ac. split; [exact Hac|].
+  apply norem_check_inv in Hchk as [Hfl | Hnone].
+  - subst ac2. exact Hfl.
+  - exfalso. subst ac2. cbn [sort_acct ha_la] in Hnone.
+    destruct (foc_slot _ _ _ _ _ _ Hfoc) as (bl0 & Hn & Hact & _).
+    apply nth_res_ok in Hbl. rewrite Hn in Hbl. injection Hbl as <-.
+    destruct (decrease_balance_id _ _ _ _ _ _ _ Hdec) as [(Ha2 & _ & _) _].
+    rewrite (existsb_perm bl_active _ _ (sort_perm _)) in Hnone.
+    rewrite (existsb_set_nth_active la1 i bl0 bl2 Hn) in Hnone; [discriminate|]. rewrite Ha2. exact Hact.
 Qed.
